@@ -131,16 +131,29 @@ Definition unpack (c : config) (st : state) (t : status) : state * addr :=
   | None => let '(h, a) := alloc (hp st) t in (mkState h (held st) (Some a), a)
   end.
 
+(* How a status travels in a frame.  The raw, json, protobuf and thrift protocols carry
+   Status.EncodeQuery() and decode with DecodeQuery (all three fields survive); proto/httproto
+   carries the JSON form and decodes with UnmarshalJSON, which turns an empty cause text into
+   a nil error (goutil status.go UnmarshalJSON: `if v.Cause != "" {...} else { s.cause = nil }`). *)
+Inductive wire := WQuery | WJson.
+
+Definition wire_decode (w : wire) (s : status) : status :=
+  match w with
+  | WQuery => s
+  | WJson => mkStatus (st_code s) (st_msg s)
+               (match st_cause s with Some [] => None | c => c end)
+  end.
+
 (* The remote side wrote the status at p (nil = no error) into a frame (Pack only reads it);
    the local side decodes it.  context.go handleReply: `stat := c.input.Status(); if stat.OK()
    { stat = postReadReplyBody(c) }; callCmd.stat = stat` - for an error reply the application
    receives the input message's decoded object, for a reply without error it receives nil
    (the decoded zero status stays behind in the message). *)
-Definition over_wire (c : config) (st : state) (p : option addr) : state * option status :=
+Definition over_wire (c : config) (w : wire) (st : state) (p : option addr) : state * option status :=
   match deref st p with
   | Some s =>
       if Z.eqb (st_code s) 0 then (fst (unpack c st zero_status), None)
-      else let '(st1, a) := unpack c st s in
+      else let '(st1, a) := unpack c st (wire_decode w s) in
            (mkState (hp st1) (held st1 ++ [a]) (inslot st1), get (hp st1) a)
   | None => (fst (unpack c st zero_status), None)
   end.
@@ -202,12 +215,12 @@ Inductive event :=
                                            context.go cancel("") *)
 | ECopy (n : name) (cause : bytes)      (* returns n.Copy(cause): peer.go Dial, session.go write
                                            (statWriteFailed), context.go cancel(reason) *)
-| ERemoteReturn (n : name)              (* the serving side answers with the predefined object
+| ERemoteReturn (w : wire) (n : name)   (* the serving side answers with the predefined object
                                            (context.go bindCall: c.stat = statNotFound; writeReply only
                                            reads it); the caller decodes the frame *)
-| ERemoteCopy (n : name) (cause : bytes)(* serving side answers n.Copy(cause): session.go
+| ERemoteCopy (w : wire) (n : name) (cause : bytes) (* serving side answers n.Copy(cause): session.go
                                            statBadMessage.Copy(err), context.go statInternalServerError.Copy(p) *)
-| ERemoteFresh (s : status)             (* serving side answers NewStatus(...) of a handler or plugin *)
+| ERemoteFresh (w : wire) (s : status)  (* serving side answers NewStatus(...) of a handler or plugin *)
 | ESilent (n : name)                    (* the predefined pointer is stored in an output message that
                                            is never sent (context.go handle, unsupported mtype) *)
 | EProxyCall (f : fwd_result)           (* plugin/proxy proxy.call, then the reply to the caller *)
@@ -233,7 +246,7 @@ Definition fwd_ptr (c : config) (t : table) (st : state) (f : fwd_result) : stat
 Definition step (c : config) (t : table) (st : state) (e : event) : state * option status :=
   match e with
   | EOk => (st, None)
-  | EOkWire => over_wire c st None
+  | EOkWire => over_wire c WQuery st None
   | EReturn n => let p := lookup t n in (hold st p, deref st p)
   | ECopy n cause =>
       match lookup t n with
@@ -241,18 +254,18 @@ Definition step (c : config) (t : table) (st : state) (e : event) : state * opti
                   let st1 := with_heap st h in (hold st1 (Some b), get h b)
       | None => (st, None)
       end
-  | ERemoteReturn n => over_wire c st (lookup t n)
-  | ERemoteCopy n cause =>
+  | ERemoteReturn w n => over_wire c w st (lookup t n)
+  | ERemoteCopy w n cause =>
       match lookup t n with
-      | Some a => let '(h, b) := copy (hp st) a (Some cause) in over_wire c (with_heap st h) (Some b)
+      | Some a => let '(h, b) := copy (hp st) a (Some cause) in over_wire c w (with_heap st h) (Some b)
       | None => (st, None)
       end
-  | ERemoteFresh s => let '(h, b) := alloc (hp st) s in over_wire c (with_heap st h) (Some b)
+  | ERemoteFresh w s => let '(h, b) := alloc (hp st) s in over_wire c w (with_heap st h) (Some b)
   | ESilent _ => (st, None)
   | EProxyCall f =>
       let '(st1, p) := fwd_ptr c t st f in
       let '(st2, q) := bad_gateway c st1 p in
-      over_wire c st2 q
+      over_wire c WQuery st2 q
   | EProxyPush f =>
       let '(st1, p) := fwd_ptr c t st f in
       let '(st2, _) := bad_gateway c st1 p in
@@ -263,7 +276,7 @@ Definition step (c : config) (t : table) (st : state) (e : event) : state * opti
                        | None => let '(h, a) := alloc (hp st) errstat in (with_heap st h, Some a)
                        end in
       match p with
-      | Some a => let '(st2, b) := fix_status c st1 a omsg ocode in over_wire c st2 (Some b)
+      | Some a => let '(st2, b) := fix_status c st1 a omsg ocode in over_wire c WQuery st2 (Some b)
       | None => (st1, None)
       end
   | EInspect i => (st, match nth_error (held st) i with Some a => get (hp st) a | None => None end)
@@ -324,8 +337,24 @@ Definition allow_list : list allow_entry := [
    "thrift struct protocol Unpack of the input message")
 ].
 
+Definition ends_with (suf s : string) : bool :=
+  let n := String.length s in
+  let k := String.length suf in
+  Nat.leb k n && String.eqb (substring (n - k) k s) suf.
+
+(* The general form of those entries, so that a protocol added later needs no new entry: inside
+   a function whose name ends in "Unpack" (the method socket.ReadMessage calls with the message
+   being read), the receiver is literally the message's own status object `m.Status(true)`.  The
+   same expression inside Pack or anywhere else is NOT admitted: an output message may carry a
+   predefined status (output.SetStatus(statNotFound)). *)
+Definition unpack_rule (s : site) : bool :=
+  String.eqb (site_prov s) "msgstatus" && String.eqb (site_recv s) "m.Status(true)"
+  && ends_with "Unpack" (site_func s)
+  && (String.eqb (site_method s) "DecodeQuery" || String.eqb (site_method s) "UnmarshalJSON").
+
 Definition site_ok (resets_ok : bool) (s : site) : bool :=
-  prov_fresh (site_prov s) || (resets_ok && existsb (allow_matches s) allow_list).
+  prov_fresh (site_prov s)
+  || (resets_ok && (existsb (allow_matches s) allow_list || unpack_rule s)).
 
 Definition has_prefix (p s : string) : bool := String.prefix p s.
 
